@@ -841,3 +841,137 @@ def gen_sources(seed, mode="loop"):
     driven_finish(sc, steps, rng=r)
     finalize_main(sc)
     return sc
+
+
+def gen_registry(seed, mode="loop"):
+    """C09: register/deregister sequences per source kind on idle, running, paused and stopped modules, keys from small
+    colliding pools and from extremes, every removal order; no event is ever produced, so the keyed-set model is exact"""
+    r = random.Random(seed * 29 + 13)
+    with_loop = r.random() < 0.35
+    sc = Sc(mode, "registry seed=%d loop=%d" % (seed, with_loop))
+    driven_skeleton(sc)
+    nm = r.randrange(1, 4)
+    not_running = set()
+    for i in range(1, nm + 1):
+        sc.mod(i, "r%d" % i, 0, r.choice([0, 0, 4]))
+        sc.cb(i, "stop", "*", [])
+        sc.main.append(("reg", i))
+        x = r.random()
+        if x >= 0.4 and not (with_loop and x >= 0.65):
+            not_running.add(i)          # paused / stopped (and idle when no loop will start it): a task registered there never runs
+        if x < 0.4:
+            sc.main.append(("start", i))
+        elif x < 0.55:
+            sc.main += [("start", i), ("pause", i)]
+        elif x < 0.65:
+            sc.main += [("start", i), ("stop", i)]
+    sc.paths = 3
+    nfd = r.randrange(2, 7)
+    fd_owner = {}
+    for u in range(1, nfd + 1):
+        sc.main.append(("fd_open", u, r.choice([0, 1]), 0))
+        fd_owner[u] = r.randrange(1, nm + 1)
+    sc.meta["max_ufd"] = nfd + 2
+    # one descriptor that two modules try to register (never auto-close): the poll layer refuses the second one
+    # when both are polled; either way the counts must stay consistent
+    shared = None
+    if nm >= 2 and r.random() < 0.5:
+        shared = r.choice(list(fd_owner))
+        sc.meta["shared_fds"] = {shared}
+    big = [10 ** 10, 10 ** 10 + 1, 2 * 10 ** 10, 1 << 40, (1 << 40) + (1 << 32), (1 << 40) + (1 << 31) + 7, 1 << 62, (1 << 62) + 5, (1 << 63) - 1, 3 * 10 ** 9]
+    small = [1, 2, 1000, 999999]
+    tmr_pool = r.sample(big, r.randrange(2, 7)) + ([] if with_loop else r.sample(small, r.randrange(0, 3)))
+    sgn_pool = r.sample([10, 12, 34, 35, 36, 37], r.randrange(2, 5))
+    thr_pool = r.sample([(1, 0), (2, 0), (1, 1000), (0, 1000), (3, 0), (2, 1000), (1, 2000), (0, 3000), (5, 500), (4, 1500)], r.randrange(2, 7))
+    top_pool = [sc.topic(t) for t in r.sample(["alpha", "beta", "gamma", "ab1", "ab2", "^ab.*", "g.mma"], r.randrange(2, 6))]
+
+    def one(m):
+        k = r.choice(["fd", "tmr", "tmr", "sgn", "sgn", "thresh", "thresh", "sub", "path", "pid", "task", "life", "bad"])
+        reg = r.random() < 0.6
+        if k == "fd":
+            u = r.choice([x for x in fd_owner if fd_owner[x] == m] or [None])
+            if shared is not None and r.random() < 0.4:
+                u = shared
+                if reg:
+                    return [("fd_reg", m, u, r.choice([0, SRC_HIGH]), sc.ud())]
+            if u is None:
+                return []
+            if reg:
+                fl = r.choice([0, 0, SRC_HIGH, SRC_AUTOFREE, SRC_ONESHOT, SRC_DUP])
+                if u == shared:
+                    fl = 0
+                return [("fd_reg", m, u, fl, sc.ud())]
+            return [("fd_dereg", m, u)]
+        if k == "tmr":
+            ns = r.choice(tmr_pool)
+            return [("tmr_reg", m, ns, r.choice([0, SRC_LOW, SRC_HIGH, SRC_AUTOFREE]), sc.ud(), r.choice([0, 0, 1]))] if reg else [("tmr_dereg", m, ns)]
+        if k == "sgn":
+            sg = r.choice(sgn_pool)
+            return [("sgn_reg", m, sg, r.choice([0, SRC_ONESHOT, SRC_HIGH]), sc.ud())] if reg else [("sgn_dereg", m, sg)]
+        if k == "thresh":
+            a, b = r.choice(thr_pool)
+            return [("thresh_reg", m, a, b, 0, sc.ud())] if reg else [("thresh_dereg", m, a, b)]
+        if k == "sub":
+            t = r.choice(top_pool)
+            return [("sub", m, t, r.choice([0, 0, SRC_LOW, SRC_HIGH, SRC_DUP, SRC_AUTOFREE]), sc.ud())] if reg else [("unsub", m, t)]
+        if k == "path":
+            pi = r.randrange(3)
+            return [("path_reg", m, pi, r.choice([0, SRC_DUP]), sc.ud(), 256)] if reg else [("path_dereg", m, pi)]
+        if k == "pid":
+            pv = r.choice([0, 1])
+            return [("pid_reg", m, 0, 0, sc.ud(), pv)] if reg else [("pid_dereg", m, 0, 0, 0, pv)]
+        if k == "task":
+            tid = r.randrange(1, 5)
+            if reg and m not in not_running:
+                return []           # known finding "task outlives its source": no task is started in this profile
+            return [("task_reg", m, tid, 0, 0, 0, 1)] if reg else [("task_dereg", m, tid)]
+        if k == "life":
+            return [(r.choice(["pause", "resume", "pause", "resume", "stop", "start"]), m)]
+        return [r.choice([("tmr_reg", m, 0, 0, sc.ud(), 0), ("sgn_reg", m, 0, 0, sc.ud()), ("thresh_reg", m, 0, 0, 0, sc.ud()),
+                          ("fd_reg", m, r.choice(list(fd_owner)), SRC_LOW, sc.ud()), ("tmr_reg", m, 5 * 10 ** 9, 3, sc.ud(), 0),
+                          ("sub", m, r.choice(top_pool), 6, sc.ud()), ("task_dereg", m, 1)])]
+
+    def task_safe(ops, running_guess):
+        return ops
+
+    body = []
+    for _ in range(r.randrange(15, 90)):
+        m = r.randrange(1, nm + 1)
+        body += one(m)
+        if r.random() < 0.15:
+            body.append(("srclen", m))
+    # tasks only on modules that are not running at that point cannot be known statically: drop task_reg followed by a
+    # state change of the same module (known finding: task outlives its source)
+    cleaned = []
+    tasked = set()
+    for op in body:
+        if op[0] == "task_reg":
+            tasked.add(op[1])
+        if op[0] in ("stop", "pause", "start", "resume") and op[1] in tasked:
+            continue
+        cleaned.append(op)
+    body = cleaned
+    sc.meta["tasked"] = sorted(tasked)
+    if with_loop:
+        cut = r.randrange(0, len(body) + 1)
+        sc.main += body[:cut]
+        rest = body[cut:]
+        steps = [rest[i:i + 3] for i in range(0, len(rest), 3)]
+        runs = [steps[:len(steps) // 2], steps[len(steps) // 2:]] if r.random() < 0.5 else [steps]
+        driven_multi(sc, runs, [[] for _ in runs], rng=r)
+    else:
+        sc.main += body
+        sc.main.append(("LOOP_NONE",))
+        order = sorted(sc.mods)
+        r.shuffle(order)
+        for s_ in order:
+            sc.main.append(("dereg", s_))
+        sc.main.append(("ctx_deregister",))
+        for s_ in order:
+            sc.main.append(("obs_drop", s_))
+        for u in range(0, nfd + 2):
+            sc.main.append(("fd_close", u))
+        sc.main.append(("quiesce",))
+        sc.main = [op for op in sc.main if op[0] != "LOOP_NONE"]
+    finalize_main(sc)
+    return sc
